@@ -266,7 +266,7 @@ func genTrees(r *core.Run, jobs []tlcJob, workersEach int) []treeCase {
 	var cases []treeCase
 	missing := map[string]map[string]int{} // family -> label -> number of shards that miss it
 	shardsOf := map[string]int{}
-	core.Parallel(len(jobs), len(jobs), func(i int) {
+	core.Parallel(len(jobs), 5, func(i int) {
 		j := jobs[i]
 		base := fmt.Sprintf("JsSyntaxGen.%s%d.cfg", j.family, j.size)
 		name := fmt.Sprintf("JsSyntaxGen.%s%d.s%d.cfg", j.family, j.size, j.shard)
@@ -739,7 +739,49 @@ func mergeCount(r *core.Run, key string, m map[string]int) {
 
 // ---------------------------------------------------------------------------
 
+// replay re-runs the single case x configuration recorded in a replay file
+func replay(r *core.Run) {
+	data, err := os.ReadFile(r.Replay)
+	if err != nil {
+		r.Infra("cannot read replay file: %v", err)
+		return
+	}
+	var rec struct {
+		Key    map[string]interface{} `json:"key"`
+		Detail struct {
+			Case   json.RawMessage `json:"case"`
+			Config config          `json:"config"`
+		} `json:"detail"`
+	}
+	if err := json.Unmarshal(data, &rec); err != nil {
+		r.Infra("cannot decode replay file: %v", err)
+		return
+	}
+	cfgs := []config{rec.Detail.Config}
+	switch rec.Key["kind"] {
+	case "tree":
+		var c treeCase
+		json.Unmarshal(rec.Detail.Case, &c)
+		runTrees(r, []treeCase{c}, cfgs)
+	case "literal":
+		var c litCase
+		json.Unmarshal(rec.Detail.Case, &c)
+		runLiterals(r, []litCase{c}, cfgs)
+	case "jsx":
+		var c jsxCase
+		json.Unmarshal(rec.Detail.Case, &c)
+		cfgs[0].JSX = ""
+		runJSX(r, []jsxCase{c}, cfgs)
+	default:
+		r.Infra("unknown replay kind %v", rec.Key["kind"])
+	}
+}
+
 func Run(r *core.Run) {
+	if r.Replay != "" {
+		replay(r)
+		return
+	}
 	r.Set("rule", "cases are enumerated by TLC from spec/JsSyntax*.tla: expression trees (one operator per precedence level / associativity class, depth<=2 exhaustive), left/right spines to depth 4-5 for the printer's downward flags, statement skeletons x depth<=1 trees, string/template/regexp bodies over code-unit classes x spellings x quote kinds, numeric lexical forms x magnitude classes, JSX elements; each case x configuration goes through the real api.Transform. A tree case is non-trivial iff it carries >= 1 hazard label (a required parenthesis, a start-of-statement/arrow-body/for-init restriction or a token-gluing hazard); a literal case iff it contains a non-letter code-unit class (numbers: a non-plain-decimal form)")
 	r.Assume("Node 20 V8 and Node's internal acorn 8.16 are the reference for validity, tree shape and literal values; the spec's prediction is cross-validated against them on every INPUT (disagreement = SPEC-DRIFT, case excluded)")
 	r.Assume("numeric value equality is judged by V8 on the enumerated lexical forms x magnitude classes; float64 bit patterns outside that grid and code-unit VALUES beyond the class representatives are not reached (DESIGN.md section 6)")
@@ -757,8 +799,10 @@ func Run(r *core.Run) {
 		for s := 0; s < 4; s++ {
 			jobs = append(jobs, tlcJob{family: "expr", size: 3, shard: s, shards: 4, parts: 8})
 		}
-		jobs = append(jobs, tlcJob{family: "spine", size: 4, shard: 0, shards: 1, parts: 16})
-		jobs = append(jobs, tlcJob{family: "skel", size: 1, shard: 0, shards: 1, parts: 16})
+		for s := 0; s < 4; s++ {
+			jobs = append(jobs, tlcJob{family: "spine", size: 4, shard: s, shards: 4, parts: 8})
+		}
+		jobs = append(jobs, tlcJob{family: "skel", size: 2, shard: 0, shards: 1, parts: 16})
 	} else {
 		for s := 0; s < 3; s++ {
 			jobs = append(jobs, tlcJob{family: "expr", size: 2, shard: s, shards: 3, parts: 8})
@@ -787,11 +831,23 @@ func Run(r *core.Run) {
 			litCh <- nil
 		}
 	}()
+	doJSX := os.Getenv("C01_FAMILIES") == "" || strings.Contains(","+os.Getenv("C01_FAMILIES")+",", ",jsx,")
+	jsxCh := make(chan []jsxCase, 1)
+	go func() {
+		if doJSX {
+			jsxCh <- genJSX(r)
+		} else {
+			jsxCh <- nil
+		}
+	}()
 	trees := genTrees(r, jobs, 2)
 	r.Logf("TLC exported %d tree cases", len(trees))
 	runTrees(r, trees, cfgs)
 	lits := <-litCh
 	if doLit {
 		runLiterals(r, lits, cfgs)
+	}
+	if jx := <-jsxCh; doJSX {
+		runJSX(r, jx, cfgs)
 	}
 }
